@@ -6,12 +6,12 @@ Pipeline (DESIGN.md sections 2, 5.3, 6):
    contract spec/ModLoadContract.tla (A) for every case of the tier's enumeration
    (a case = dependency graph + order of the module_depends() calls + listing + at most one
    module without a shared object + hook profile: which modules lack the optional entry points
-   module_post_init / module_destructor) and prints every case together with the event log B
-   predicts.  Random cases on 4-6 modules, and hook profiles for a sample of the enumerated
+   module_post_init / module_destructor / module_constructor -- the last only for modules that
+   declare nothing) and prints every case together with the event log B predicts.  Random cases on 4-6 modules, and hook profiles for a sample of the enumerated
    cases whose profiles TLC does not enumerate, are drawn here (ctx.rng), handed to the same
    specification through a case file, and model-checked the same way.
 2. Every case is rendered into a dependency file for the stub modules (harness/stubmod.c in
-   four variants: all hooks / no post-init / no destructor / neither; one copy per module name
+   eight variants: every combination of the three entry points; one copy per module name
    and variant), a library directory and a configuration, and the REAL daemon is started once
    per case.  The stubs' event log and the exit status are collected.
 3. TLC validates every real log against the contract (spec/ModLoadTrace.tla).  This is the
@@ -50,11 +50,12 @@ INVARIANT_TO_CONJUNCT = lambda name: name.rstrip("_")
 # cases
 # ----------------------------------------------------------------------------------------
 
-CASE_FIELDS = ("n", "deps", "list", "missing", "nopost", "nodtor")
+CASE_FIELDS = ("n", "deps", "list", "missing", "nopost", "nodtor", "noctor")
 
 
 def case_key(c):
-    return json.dumps([c["n"], c["deps"], c["list"], c["missing"], c["nopost"], c["nodtor"]], separators=(",", ":"))
+    return json.dumps([c["n"], c["deps"], c["list"], c["missing"], c["nopost"], c["nodtor"], c["noctor"]],
+                      separators=(",", ":"))
 
 
 def graph_key(c):
@@ -63,7 +64,7 @@ def graph_key(c):
 
 def case_size(c):
     return (c["n"], sum(len(d) for d in c["deps"]), len(c["list"]), len(c["missing"]),
-            len(c["nopost"]) + len(c["nodtor"]), case_key(c))
+            len(c["nopost"]) + len(c["nodtor"]) + len(c["noctor"]), case_key(c))
 
 
 def signature(c):
@@ -74,27 +75,36 @@ def signature(c):
         sig += " | no post-init: " + ",".join("m%d" % m for m in c["nopost"])
     if c.get("nodtor"):
         sig += " | no destructor: " + ",".join("m%d" % m for m in c["nodtor"])
+    if c.get("noctor"):
+        sig += " | no constructor: " + ",".join("m%d" % m for m in c["noctor"])
     return sig
 
 
 def with_defaults(c):
-    """Replay bodies written before hook profiles existed: every module has every hook."""
+    """Replay bodies written before hook profiles existed (or before the constructor became part of
+    them): every module has every entry point not mentioned."""
     c = dict(c)
     c.setdefault("nopost", [])
     c.setdefault("nodtor", [])
+    c.setdefault("noctor", [])
     return c
 
 
-def draw_profile(rng, n, missing, force=False):
-    """Hook profile drawn at random: per case one probability for 'lacks module_post_init' and one
-    for 'lacks module_destructor' (most stock modules lack one or both).  force: not the full profile."""
+def draw_profile(rng, n, deps, missing, force=False):
+    """Hook profile drawn at random: per case one probability for 'lacks module_post_init', one for
+    'lacks module_destructor' (most stock modules lack one or both) and one for 'lacks
+    module_constructor' (only modules that declare nothing can: a constructor is the only place to
+    call module_depends() from).  force: not the full profile."""
     have = [m for m in range(1, n + 1) if m not in missing]
+    silent = [m for m in have if not deps[m - 1]]
     while True:
         qp, qd = rng.choice([0.0, 0.3, 0.6, 0.9]), rng.choice([0.0, 0.3, 0.6, 0.9])
+        qc = rng.choice([0.0, 0.0, 0.4, 0.8])
         nopost = [m for m in have if rng.random() < qp]
         nodtor = [m for m in have if rng.random() < qd]
-        if nopost or nodtor or not force or not have:
-            return nopost, nodtor
+        noctor = [m for m in silent if rng.random() < qc]
+        if nopost or nodtor or noctor or not force or not have:
+            return nopost, nodtor, noctor
 
 
 def reach(deps, m):
@@ -118,13 +128,26 @@ def shape_counts(c):
     nodtor_with_deps = any(deps[m - 1] for m in c["nodtor"])
     through = lambda hookless: any(y in hookless and z not in deps[x - 1] and z not in hookless and x not in hookless
                                    for x in range(1, n + 1) for y in deps[x - 1] for z in deps[y - 1])
+    # a module without constructor that is not named in the list can only be loaded from inside another
+    # module's module_depends() call; "mid": that call is not the last one of its constructor
+    unlisted = [h for h in c["noctor"] if h not in c["list"]]
+    nested = bool(unlisted)
+    nested_mid = any(h in deps[x - 1][:-1] for h in unlisted for x in range(1, n + 1))
+    listed_first = any(h in c["list"] and not any(h in reach(deps, x) for x in c["list"][:c["list"].index(h)])
+                       for h in c["noctor"])
+    two_noctor = any(paths(a, b) >= 2 for b in c["noctor"] for a in range(1, n + 1) if a != b)
     return {"two_paths_to_module_without_post_init": two_nopost,
             "module_without_destructor_has_dependencies": nodtor_with_deps,
             "post_init_order_only_through_hookless_module": through(c["nopost"]),
-            "destructor_order_only_through_hookless_module": through(c["nodtor"])}
+            "destructor_order_only_through_hookless_module": through(c["nodtor"]),
+            "module_without_constructor_loaded_only_as_a_dependency": nested,
+            "module_without_constructor_pulled_in_before_the_last_call_of_a_constructor": nested_mid,
+            "module_without_constructor_listed_ahead_of_its_users": listed_first,
+            "two_paths_to_module_without_constructor": two_noctor,
+            "module_without_any_entry_point": any(m in c["nopost"] and m in c["nodtor"] for m in c["noctor"])}
 
 
-def canon(n, deps, lst, missing, nopost=(), nodtor=()):
+def canon(n, deps, lst, missing, nopost=(), nodtor=(), noctor=()):
     """Restrict a drawn case to the modules the loader can ever touch (named in the list or pulled
     in by module_depends()) and rename them order-preservingly to 1..k.  Purely syntactic."""
     seen, stack = set(lst), list(lst)
@@ -142,7 +165,8 @@ def canon(n, deps, lst, missing, nopost=(), nodtor=()):
     return {"n": len(order), "deps": nd, "list": [ren[m] for m in lst],
             "missing": sorted(ren[m] for m in missing if m in ren),
             "nopost": sorted(ren[m] for m in nopost if m in ren and m not in missing),
-            "nodtor": sorted(ren[m] for m in nodtor if m in ren and m not in missing)}
+            "nodtor": sorted(ren[m] for m in nodtor if m in ren and m not in missing),
+            "noctor": sorted(ren[m] for m in noctor if m in ren and m not in missing and not deps[m - 1])}
 
 
 def random_case(rng, n, style):
@@ -172,28 +196,45 @@ def random_case(rng, n, style):
         leaves = [m for m in range(1, n + 1) if not deps[m - 1]]
         if leaves:
             missing = [rng.choice(leaves)]
-    nopost, nodtor = draw_profile(rng, n, missing)
-    return canon(n, deps, lst, missing, nopost, nodtor)
+    nopost, nodtor, noctor = draw_profile(rng, n, deps, missing)
+    return canon(n, deps, lst, missing, nopost, nodtor, noctor)
 
 
-def diamond(nopost=(), nodtor=()):
+def diamond(nopost=(), nodtor=(), noctor=()):
     return {"n": 4, "deps": [[2, 3], [4], [4], []], "list": [1], "missing": [],
-            "nopost": list(nopost), "nodtor": list(nodtor)}
+            "nopost": list(nopost), "nodtor": list(nodtor), "noctor": list(noctor)}
 
 
 def triangle_nopost_bottom():
     """m1 -> {m2, m3}, m2 -> m3; m3 (reached along two paths in m1's walk) has no module_post_init."""
-    return {"n": 3, "deps": [[2, 3], [3], []], "list": [1], "missing": [], "nopost": [3], "nodtor": []}
+    return {"n": 3, "deps": [[2, 3], [3], []], "list": [1], "missing": [], "nopost": [3], "nodtor": [],
+            "noctor": []}
 
 
 def chain_nodtor_top():
     """m3 -> m2 -> m1; m3 has no module_destructor (and the dependencies sort before their dependents)."""
-    return {"n": 3, "deps": [[], [1], [2]], "list": [3], "missing": [], "nopost": [], "nodtor": [3]}
+    return {"n": 3, "deps": [[], [1], [2]], "list": [3], "missing": [], "nopost": [], "nodtor": [3],
+            "noctor": []}
+
+
+def helper_pulled_in():
+    """m1 -> m2; only m1 is named in the configuration; m2 (a plain library of helper functions) has no
+    module_constructor and is first loaded from inside m1's module_depends() call."""
+    return {"n": 2, "deps": [[2], []], "list": [1], "missing": [], "nopost": [], "nodtor": [], "noctor": [2]}
+
+
+def helper_among_others(lst=(1,), noctor=(2,)):
+    """m1 -> {m2, m3, m4} in that call order, m3 -> m4; m2 has no module_constructor."""
+    return {"n": 4, "deps": [[2, 3, 4], [], [4], []], "list": list(lst), "missing": [],
+            "nopost": [], "nodtor": [], "noctor": list(noctor)}
 
 
 def fixed_cases():
     return [diamond(), diamond(nopost=[4]), diamond(nodtor=[2, 3]), diamond(nopost=[2, 3, 4], nodtor=[1, 2, 3, 4]),
-            triangle_nopost_bottom(), chain_nodtor_top()]
+            triangle_nopost_bottom(), chain_nodtor_top(),
+            helper_pulled_in(), diamond(noctor=[4]), diamond(nopost=[4], nodtor=[4], noctor=[4]),
+            helper_among_others(), helper_among_others(lst=(3, 1)), helper_among_others(lst=(2, 1)),
+            helper_among_others(noctor=(2, 4))]
 
 
 # ----------------------------------------------------------------------------------------
@@ -238,6 +279,8 @@ MODEL_MUTANTS = [
      "model_mutant_NoPostNoMark", "m1 -> {m2, m3}, m2 -> m3 with m3 lacking module_post_init"),
     ("NoDtorNoUnlink", "ModLoad_bugNoDtorfile.cfg", chain_nodtor_top, "B_DtorBeforeDeps",
      "model_mutant_NoDtorNoUnlink", "m3 -> m2 -> m1 with m3 lacking module_destructor"),
+    ("NoCtorNoRestore", "ModLoad_bugNoCtorfile.cfg", helper_pulled_in, "B_PostInitAfterDeps",
+     "model_mutant_NoCtorNoRestore", "m1 -> m2, only m1 listed, with m2 lacking module_constructor"),
 ]
 
 
@@ -245,7 +288,8 @@ def model_mutant_must_fail(ctx):
     """Anti-vacuity of the model side: with a Bug switch on -- module_dfs() as before commit 47cba46
     ("D12"); module_dfs() returning early, without the visited mark, for a module without
     module_post_init ("NoPostNoMark"); module_cleanup() unlinking from the dependencies' rdepends only
-    when a destructor was found ("NoDtorNoUnlink") -- TLC must report the expected conjunct on the
+    when a destructor was found ("NoDtorNoUnlink"); module_load() returning early, without
+    `loading_module = prior`, for a module without module_constructor ("NoCtorNoRestore") -- TLC must report the expected conjunct on the
     smallest case that shows the difference (the same cases pass with Bug = "none": they are
     part of the drawn cases below)."""
     import concurrent.futures
@@ -257,7 +301,7 @@ def model_mutant_must_fail(ctx):
             f.write(json.dumps(mk()) + "\n")
         r = _tlc.run("ModLoad", cfg, workers=1, timeout=300, deadlock=True, env={"CASES": p})
         return mm, r.violated
-    with concurrent.futures.ThreadPoolExecutor(max_workers=3) as ex:
+    with concurrent.futures.ThreadPoolExecutor(max_workers=len(MODEL_MUTANTS)) as ex:
         for (bug, cfg, mk, expect, key, text), got in ex.map(one, MODEL_MUTANTS):
             if got != expect:
                 raise core.MachineryError("model mutant Bug=%s on %s: expected %s, TLC says %r" % (bug, text, expect, got))
@@ -268,15 +312,15 @@ def model_mutant_must_fail(ctx):
 # real side
 # ----------------------------------------------------------------------------------------
 
-VARIANTS = ("all", "nopost", "nodtor", "neither")
+VARIANTS = ("all", "nopost", "nodtor", "neither", "noctor", "noctor_nopost", "noctor_nodtor", "noctor_neither")
 
 
 def variant_of(c, m):
-    return VARIANTS[(1 if m in c["nopost"] else 0) + (2 if m in c["nodtor"] else 0)]
+    return VARIANTS[(1 if m in c["nopost"] else 0) + (2 if m in c["nodtor"] else 0) + (4 if m in c["noctor"] else 0)]
 
 
 def prepare_libs(ctx):
-    """pool/m<k>.<variant>.so for k = 1..6 and the four stub variants: copies, not links, so that
+    """pool/m<k>.<variant>.so for k = 1..6 and the eight stub variants: copies, not links, so that
     every module name has its own inode, statics and dlopen handle whatever its variant.  A case's
     library directory (made by render) links m<k>.so to the variant its hook profile asks for and
     has no entry for a module without a shared object."""
@@ -292,7 +336,9 @@ def prepare_libs(ctx):
 
 def render(c, libroot, wdir, lib_text=None):
     """deps file, configuration and (unless lib_text is given: replay text only) the library directory."""
-    if len(c["missing"]) > 1 or c["n"] > MAXMODS or set(c["missing"]) & (set(c["nopost"]) | set(c["nodtor"])):
+    if len(c["missing"]) > 1 or c["n"] > MAXMODS \
+            or set(c["missing"]) & (set(c["nopost"]) | set(c["nodtor"]) | set(c["noctor"])) \
+            or any(c["deps"][m - 1] for m in c["noctor"]):       # nobody to call module_depends() for it
         raise core.MachineryError("case outside the renderable space: %r" % (c,))
     lib = lib_text or os.path.join(wdir, "lib")
     if lib_text is None:
@@ -375,7 +421,7 @@ def run_one(daemon, libroot, wdir, c, grace):
         except OSError:
             pass
     line = {"n": c["n"], "deps": c["deps"], "list": c["list"], "missing": c["missing"],
-            "nopost": c["nopost"], "nodtor": c["nodtor"],
+            "nopost": c["nopost"], "nodtor": c["nodtor"], "noctor": c["noctor"],
             "log": log, "events": nlines, "status": status}
     return line, external_at is not None, err
 
@@ -519,12 +565,18 @@ def must_reject(ctx, lines):
     corrupted copies are rejected."""
     import copy
     import concurrent.futures
-    good_line = thr_dtor = thr_post = has_nodtor = None
+    good_line = thr_dtor = thr_post = has_nodtor = noctor_used = noctor_free = None
     for l in lines:
         if l["status"] != 0:
             continue
         pis = [e[1] for e in l["log"] if e[0] == "post-init"]
-        if good_line is None and not l["nopost"] and not l["nodtor"] and len(pis) >= 3 \
+        if l["noctor"]:
+            used = any(l["noctor"][0] in ds for ds in l["deps"])
+            if noctor_used is None and used and l["noctor"][0] in l["nopost"] and l["noctor"][0] in l["nodtor"]:
+                noctor_used = l
+            if noctor_free is None and not used and l["noctor"][0] not in l["nopost"]:
+                noctor_free = l
+        if good_line is None and not l["nopost"] and not l["nodtor"] and not l["noctor"] and len(pis) >= 3 \
                 and pis[0] in reach(l["deps"], pis[-1]):      # swapping first and last post-init must break the order
             good_line = l
         if thr_dtor is None and _through_hookless(l, "dtor", l["nodtor"]):
@@ -533,12 +585,14 @@ def must_reject(ctx, lines):
             thr_post = l
         if has_nodtor is None and l["nodtor"] and len(l["nodtor"]) < l["n"]:
             has_nodtor = l
-        if good_line and thr_dtor and thr_post and has_nodtor:
+        if good_line and thr_dtor and thr_post and has_nodtor and noctor_used and noctor_free:
             break
     for what, v in (("whose last post-init depends on its first (all hooks)", good_line),
                     ("with destructor order through a module without destructor", thr_dtor),
                     ("with post-init order through a module without post-init", thr_post),
-                    ("with some but not all modules lacking a destructor", has_nodtor)):
+                    ("with some but not all modules lacking a destructor", has_nodtor),
+                    ("in which a module that others depend on lacks every entry point", noctor_used),
+                    ("in which a module that nobody depends on lacks the constructor and has a post-init", noctor_free)):
         if v is None:
             raise core.MachineryError("no accepted real log " + what)
     tests = []
@@ -570,6 +624,21 @@ def must_reject(ctx, lines):
     f = copy.deepcopy(good_line)          # a module that logged a post-init declared to have none
     f["nopost"] = [[ev for ev in f["log"] if ev[0] == "post-init"][0][1]]
     tests.append(("module that logged post-init recorded as lacking it", f, "deadlock"))
+    g = copy.deepcopy(noctor_free)        # a module without constructor declared to have one
+    g["noctor"] = g["noctor"][1:]
+    tests.append(("module without constructor, with a post-init, recorded as having a constructor", g, "A_CtorOnce"))
+    g2 = copy.deepcopy(noctor_used)       # the same for a module that another module depends on
+    g2["noctor"] = g2["noctor"][1:]
+    tests.append(("dependency without any entry point recorded as having a constructor", g2, "A_DepsConstructedFirst"))
+    h = copy.deepcopy(good_line)          # a module that logged its constructor declared to have none
+    leaf = [m for m in range(1, h["n"] + 1) if not h["deps"][m - 1]][0]
+    h["noctor"] = [leaf]
+    tests.append(("module that logged ctor-begin / ctor-end recorded as lacking the constructor", h, "deadlock"))
+    k = copy.deepcopy(noctor_free)        # the post-init of a module without constructor is owed all the same
+    hm = k["noctor"][0]
+    k["log"].remove(["post-init", hm])
+    k["events"] -= 1
+    tests.append(("post-init of a module without constructor deleted", k, "A_StartsComplete"))
 
     def one(arg):
         i, (what, ln, expect) = arg
@@ -657,7 +726,7 @@ def run(ctx):
     for c in ordered:
         by_graph.setdefault(graph_key(c), []).append(c)
     only_full = [cs[0] for cs in by_graph.values() if len(cs) == 1 and not cs[0]["nopost"] and not cs[0]["nodtor"]
-                 and len(cs[0]["missing"]) < cs[0]["n"]]
+                 and not cs[0]["noctor"] and len(cs[0]["missing"]) < cs[0]["n"]]
     plain = lambda c: not c["missing"] and all(m + 1 not in ds for m, ds in enumerate(c["deps"]))
     strata = ([("cyclic without self-dependency, <=3 modules", [c for c in only_full if c["n"] <= 3 and plain(c)], 600),
                ("other refused cases, <=3 modules", [c for c in only_full if c["n"] <= 3 and not plain(c)], 500)]
@@ -674,9 +743,9 @@ def run(ctx):
     for what, pool, count in strata:
         pool = sorted(pool, key=case_key)
         for c in (rng.sample(pool, count) if len(pool) > count else pool):
-            nopost, nodtor = draw_profile(rng, c["n"], c["missing"], force=True)
+            nopost, nodtor, noctor = draw_profile(rng, c["n"], c["deps"], c["missing"], force=True)
             v = {"n": c["n"], "deps": c["deps"], "list": c["list"], "missing": c["missing"],
-                 "nopost": nopost, "nodtor": nodtor}
+                 "nopost": nopost, "nodtor": nodtor, "noctor": noctor}
             if case_key(v) not in seen:
                 seen.add(case_key(v))
                 drawn.append(v)
@@ -710,16 +779,19 @@ def run(ctx):
 
     classes = {}
     shapes = {"good_cases_with_a_module_lacking_post_init": 0, "good_cases_with_a_module_lacking_destructor": 0,
-              "refused_cases_with_a_module_lacking_a_hook": 0}
+              "good_cases_with_a_module_lacking_constructor": 0,
+              "refused_cases_with_a_module_lacking_a_hook": 0, "refused_cases_with_a_module_lacking_constructor": 0}
     for c in ordered:
         classes[c["class"]] = classes.get(c["class"], 0) + 1
         if c["class"] == "good":
             shapes["good_cases_with_a_module_lacking_post_init"] += 1 if c["nopost"] else 0
             shapes["good_cases_with_a_module_lacking_destructor"] += 1 if c["nodtor"] else 0
+            shapes["good_cases_with_a_module_lacking_constructor"] += 1 if c["noctor"] else 0
             for k, v in shape_counts(c).items():
                 shapes[k] = shapes.get(k, 0) + (1 if v else 0)
-        elif c["nopost"] or c["nodtor"]:
-            shapes["refused_cases_with_a_module_lacking_a_hook"] += 1
+        else:
+            shapes["refused_cases_with_a_module_lacking_a_hook"] += 1 if c["nopost"] or c["nodtor"] else 0
+            shapes["refused_cases_with_a_module_lacking_constructor"] += 1 if c["noctor"] else 0
     ctx.cov["cases_by_class"] = classes
     ctx.cov["absent_hook_shapes"] = shapes
     for cl in ("good", "cyclic", "unloadable"):
@@ -813,35 +885,47 @@ def run(ctx):
     nontrivial = sum(1 for l in lines if l["n"] >= 2 and sum(map(len, l["deps"])) >= 1)
     ctx.cov["distinct_nontrivial"] = nontrivial
     ctx.cov["rule"] = ("distinct cases (dependency graph with call order, listing, missing module, hook profile = "
-                       "which modules lack module_post_init / module_destructor) with at least two modules and at "
-                       "least one module_depends() edge, each run on its own daemon process; "
-                       "distinct_nontrivial_absent_hook = those of them in which some module lacks a hook")
+                       "which modules lack module_post_init / module_destructor / module_constructor) with at "
+                       "least two modules and at least one module_depends() edge, each run on its own daemon "
+                       "process; distinct_nontrivial_absent_hook = those of them in which some module lacks an "
+                       "entry point; distinct_nontrivial_absent_constructor = those in which some module lacks "
+                       "module_constructor")
     ctx.cov["distinct_nontrivial_absent_hook"] = sum(1 for l in lines if l["n"] >= 2 and sum(map(len, l["deps"])) >= 1
-                                                     and (l["nopost"] or l["nodtor"]))
+                                                     and (l["nopost"] or l["nodtor"] or l["noctor"]))
+    ctx.cov["distinct_nontrivial_absent_constructor"] = sum(1 for l in lines if l["n"] >= 2 and l["noctor"]
+                                                            and sum(map(len, l["deps"])) >= 1)
     ctx.cov["exhaustive"] = True
     ctx.cov["modules_max"] = max(l["n"] for l in lines)
     ctx.cov["timing_s"] = {"model": round(t_model, 1), "daemons": round(t_real, 1), "validation": round(t_val, 1)}
-    picks = ([l for l in lines if l["n"] == 4 and l["status"] == 0 and not l["nopost"] and not l["nodtor"]][:1]
+    picks = ([l for l in lines if l["n"] == 4 and l["status"] == 0 and not l["nopost"] and not l["nodtor"]
+              and not l["noctor"]][:1]
              + [l for l in lines if l["n"] == 4 and l["status"] == 0 and l["nopost"] and l["nodtor"]
                 and sum(map(len, l["deps"])) >= 4][:2]
+             + [l for l in lines if l["n"] >= 3 and l["status"] == 0 and l["noctor"] and not l["nopost"]
+                and any(m not in l["list"] for m in l["noctor"]) and sum(map(len, l["deps"])) >= 3][:1]
              + [l for l in lines if l["status"] != 0 and l["n"] == 3][:2])
     for l in picks:
         ctx.sample({"case": signature(l), "log": " ".join("%s(%s)" % (e, m) if m else e for e, m in l["log"]),
                     "status": l["status"]})
-    ctx.assumptions.append("modules are the stub harness/stubmod.c, built in four variants (all entry points / no "
-                           "module_post_init / no module_destructor / neither) and copied per module name m1..m6; "
-                           "every module has a module_constructor; only module_depends() declarations "
-                           "(module_antidepends / module_is_backend are outside the contract)")
-    ctx.assumptions.append("'running' = a zero-delay libevent timer armed by the first constructor fired inside "
+    ctx.assumptions.append("modules are the stub harness/stubmod.c, built in eight variants (every combination of "
+                           "module_constructor / module_post_init / module_destructor present or absent) and copied "
+                           "per module name m1..m6; only a module that declares nothing may lack module_constructor "
+                           "(a constructor is the only place to call module_depends() from); only module_depends() "
+                           "declarations (module_antidepends / module_is_backend are outside the contract)")
+    ctx.assumptions.append("'running' = a zero-delay libevent timer, armed by the first stub that gets control (a "
+                           "module_constructor, or the ELF constructor of a stub without one), fired inside "
                            "main()'s event loop (or the process was still alive %ss after start); the daemon is "
                            "then stopped with SIGHUP, its documented clean stop" % int(GRACE))
     ctx.assumptions.append("at most one module without a shared object per case, and that module declares nothing")
     ctx.assumptions.append("order requirements relate the events of modules that have the entry point, over the "
                            "transitive closure of the full dependency relation; a module without the entry point "
-                           "contributes no event and owes none")
+                           "contributes no event and owes none; a dependency without module_constructor counts as "
+                           "constructed once loaded (no constructor event is required of it or for it)")
     ctx.assumptions.append("hook profiles: every profile for %s; one profile drawn at random (seed %d) for a sample of "
                            "the other enumerated cases, for 4-module cases and for the random graphs"
-                           % ("the good cases on <=3 modules" if quick else
+                           % ("the good cases on <=3 modules as far as module_post_init / module_destructor go, all "
+                              "of them with every constructor, and every non-empty set of declaration-free modules "
+                              "lacking module_constructor only / every entry point" if quick else
                               "every case on <=3 modules without self-dependency or missing module, and for the good "
                               "cases on <=3 modules with any call order", ctx.seed))
     ctx.note("real daemon: %d starts in %.1fs (%d/s); TLC judged %d logs in %.1fs; %d differ from the model"
